@@ -211,7 +211,7 @@ func ruleC07(c *Ctx, r *Report) {
 	exc := loadExceptions()
 	isException := func(rule, construct string) (string, bool) {
 		for _, e := range exc {
-			if e.Rule == rule && e.Construct == construct {
+			if e.Rule == rule && (e.Construct == construct || e.Construct == c.roleConstruct(construct)) {
 				return e.Reason, true
 			}
 		}
